@@ -581,6 +581,159 @@ def verb_case(case):
 
 
 # ==========================================================================================
+# (o) main-flag fuzz: every flag of the flag tables the binary prints, with hostile argument values
+
+FLAG_SECTIONS = ["comments-in-data-flags", "compressed-data-flags", "csv/tsv-only-flags", "dkvp-only-flags", "file-format-flags",
+                 "flatten-unflatten-flags", "format-conversion-keystroke-saver-flags", "json-only-flags", "legacy-flags", "markdown-only-flags",
+                 "miscellaneous-flags", "pprint-only-flags", "separator-flags"]
+FLAG_SKIP = {"--prepipe", "--prepipex", "--prepipe-gunzip", "--prepipe-zcat", "--prepipe-bz2", "--prepipe-zstdcat", "--load", "--mload", "--from", "--mfrom",
+             "-n", "--version", "-I", "--norc-processing", "-s", "--ofmt", "--tz", "--nr-progress-mod", "--files", "--cpuprofile", "--traceprofile", "--time",
+             "-x", "--norc", "--infer-none", "--c2p", "--lazy-quotes"}
+HOSTILE_ARGS = ["", "abc", "0", "-1", ";", ";;", "tab", "\\", "(", "[", "a|b", "9223372036854775808", "widths:", "widths:0,0", "widths:-1,2", "widths:x", "left-align",
+                "right-align-multi-word", " ", "\n", "semicolon", "ascii_null", "%", "%d", "%lf", "%s", "%08.3lf", "%z", "x,y", "é", "\xff", "0x", "1e400", ".", "{}", "a=b"]
+
+
+def flag_table():
+    flags = []
+    for sec in FLAG_SECTIONS:
+        r = R.mlr(["help", sec], binary="mlr-verif")
+        for line in r.out.splitlines():
+            m = re.match(r"^(-{1,2}[A-Za-z0-9][-A-Za-z0-9_]*)(?: or (-{1,2}[-A-Za-z0-9_]+))*(?: (\{[^}]*\}))?", line)
+            if m and not line.startswith(" "):
+                names = re.findall(r"(?:^| or )(-{1,2}[A-Za-z0-9][-A-Za-z0-9_]*)", line.split("  ")[0])
+                arg = "{" in line.split("  ")[0]
+                nargs = line.split("  ")[0].count("{")
+                for nm in names:
+                    if nm not in FLAG_SKIP:
+                        flags.append((nm, nargs))
+    return sorted(set(flags))
+
+
+def option_case(case):
+    rng = random.Random(case["seed"])
+    flags = case["flags"]
+    docs = valid_docs(rng)
+    fmt = rng.choice(list(READER_OPTS))
+    base = rng.choice(READER_OPTS[fmt])
+    k = rng.choice([1, 1, 2, 3])
+    extra = []
+    picked = []
+    for _ in range(k):
+        nm, nargs = rng.choice(flags)
+        picked.append(nm)
+        extra.append(nm)
+        for _ in range(nargs):
+            extra.append(rng.choice(HOSTILE_ARGS))
+    if case.get("focus"):
+        nm, nargs = case["focus"]
+        extra = [nm] + [case["arg"]] * nargs
+        picked = [nm]
+    data = docs[fmt]
+    if rng.random() < 0.3:
+        data, _ = mutate_doc(rng, data, list(docs.values()))
+    databytes = data.encode("utf-8", "surrogateescape")
+    out = rng.choice([["--ojson"], [OUT_FOR[fmt]], []])
+    order = rng.choice([base + extra, extra + base])
+    argv = order + out + ["cat", "in.dat"]
+    res = case_result(_h("o", case["seed"]), nontrivial=True)
+    r = R.mlr(argv, files={"in.dat": databytes}, env=ENV, cpu_s=20, watchdog=60)
+    bump(res, "option_runs")
+    detail = {"argv": argv, "files": {"in.dat": databytes[:3000]}, "gen_seed": case["seed"]}
+    ok = judge(res, r, {"where": "option", "flag": picked[0] if len(picked) == 1 else "+".join(sorted(set(picked)))[:80]}, f"main flags {extra} with reader {base}", detail)
+    if ok:
+        bump(res, "option_ok_exit0" if r.rc == 0 else "option_ok_mlr_error")
+    res["sample"] = {"monitor": "option", "argv": argv[:10]}
+    return res
+
+
+# ==========================================================================================
+# (t) hostile-argument pools for the function families whose second argument is a little language:
+#     time formats, regexes, printf formats, percentile options
+
+TIME_FNS2 = ["strptime", "strpntime", "strftime", "strfntime", "gmt2sec", "gmt2nsec", "sec2date", "dhms2sec", "dhms2fsec", "hms2sec", "hms2fsec"]
+TIME_FMTS = ["%Y", "%e %Y", "%d", "%j", "%e", "%m/%d", "%H:%M:%S", "%y%m%d", "%s", "%N", "%1S", "%9S", "%p", "%I %p", "%b %e", "%a", "%Z", "%z", "%%", "%", "%5", "%Q", "%Y-%m-%dT%H:%M:%SZ",
+             "%Y %e", "%e%e%e", "% e", "%F %T", "%D", "%c", "%v", "x%ey", "%f", ".%f", "%S.%f", "%1", "%e %", "%E", "%O"]
+TIME_INPUTS = ["", "4", "4 ", " 4", "abc", "2023", "12:", "1/", "-", "-007", "20230101", "1 2 3", "31", "366", "Mar 4", "Mar  4", "AM", "12 PM", "+0100", "Z", "%", "1.5", ".", "00", "4 2023x", "2023-01-01T00:00:00Z", "99999999999"]
+REGEX_HOSTILE = ['(a)(b)(c)(d)(e)(f)(g)(h)(i)(j)', '(a)(b)(c)(d)(e)(f)(g)(h)(i)(j)(k)(l)', '((((((((((((a))))))))))))', '(a)?(b)?(c)?(d)?(e)?(f)?(g)?(h)?(i)?(j)?(k)?', '"i', '"', '""i', '"a"i', '"(', '(?i', '\\', 'a{2,1}', '[[:alpha:', '(?P<n>a)(?P<n>b)', 'a**', '\\1', '(a)|b', '^*', '$^', '.{0}', '(?:)', 'a|', '|', '\\Q', 'x*?+', '[z-a]']
+REGEX_FNS = [("sub", 3), ("gsub", 3), ("regextract", 2), ("regextract_or_else", 3), ("matchx" if False else "strmatchx", 2), ("strmatch", 2), ("splitax", 2), ("any", 0), ("=~", 2), ("!=~", 2)]
+PCTL_PS = ["-1", "0", "50", "100", "150", "1e300", '"x"', "[50]", "[150, -1]", '["x"]', "[]", "{}", "$nosuch", '""']
+PCTL_OPTS = ['{"interpolate_linearly": true}', '{"interpolate_linearly": "x"}', '{"output_array_not_map": true}', '{"array_is_final_sorted": true}', '{"oa": true, "il": true}',
+             '{"nosuch": 1}', "{}", "3", '{"interpolate_linearly": true, "output_array_not_map": true, "array_is_final_sorted": true}']
+PCTL_DATA = ["[1,2,3]", "[]", "[3,1,2]", '["a","b"]', "[1]", '{"a":1,"b":5}', "{}", '[1,"",3]', "[[1],[2]]", "[1.5, 2, -0.0]", "3", '"abc"']
+
+
+def hostile_pool_calls():
+    calls = []
+    for fn in TIME_FNS2:
+        for f in TIME_FMTS:
+            for x in TIME_INPUTS:
+                if fn.startswith("strf"):
+                    calls.append(f"{fn}({json.dumps(x) if not x.lstrip('-').isdigit() else x}, {json.dumps(f)})")
+                elif fn in ("strptime", "strpntime"):
+                    calls.append(f"{fn}({json.dumps(x)}, {json.dumps(f)})")
+        if fn not in ("strptime", "strpntime", "strftime", "strfntime"):
+            for x in TIME_INPUTS:
+                calls.append(f"{fn}({json.dumps(x)})")
+    for fn in ("strptime_local", "strftime_local"):
+        for f in TIME_FMTS[::3]:
+            for x in TIME_INPUTS[::3]:
+                for tz in ('"Asia/Istanbul"', '"Nowhere/Land"', '""'):
+                    calls.append(f"{fn}({json.dumps(x) if fn.startswith('strp') else '0'}, {json.dumps(f)}, {tz})")
+    for rx in REGEX_HOSTILE:
+        lit = json.dumps(rx)
+        for subj in ('"abc"', '""', '"a\\b"', '"abcdefghijkl"'):
+            calls += [f"sub({subj}, {lit}, \"x\\1\")", f"gsub({subj}, {lit}, \"\\0\\9\")", f"regextract({subj}, {lit})", f"regextract_or_else({subj}, {lit}, 1)",
+                      f"strmatchx({subj}, {lit})", f"strmatch({subj}, {lit})", f"splitax({subj}, {lit})", f"({subj} =~ {lit})", f"({subj} !=~ {lit})",
+                      f"matchx({subj}, {lit})" if False else f"ssub({subj}, {lit}, \"y\")", f"unformat({lit}, {subj})", f"format({lit}, {subj})", f"fmtnum(3, {lit})",
+                      f"strfind({subj}, {lit})" if False else f"contains({subj}, {lit})", f"index({subj}, {lit})", f"leafcount({lit})", f"latin1_to_utf8({lit})"]
+    for d in PCTL_DATA:
+        for pp in PCTL_PS:
+            calls.append(f"percentile({d}, {pp})")
+            calls.append(f"percentiles({d}, {pp})")
+            for o in PCTL_OPTS:
+                calls.append(f"percentiles({d}, {pp}, {o})")
+                calls.append(f"percentile({d}, {pp}, {o})")
+        for o in PCTL_OPTS:
+            calls.append(f"median({d}, {o})")
+        calls += [f"{fn}({d})" for fn in ("sort_collection", "mode", "antimode", "minlen", "maxlen", "kurtosis", "skewness", "meaneb", "variance", "distinct_count", "null_count", "sum2", "sum4", "median")]
+    return calls
+
+
+def pool_case(case):
+    calls = case["calls"]
+    res = case_result(_h("t", case["idx"]), nontrivial=False)
+    res["evals"] = len(calls)
+    inp = '{"e":"","n":null}\n'
+    start = 0
+    guard = 0
+    nt = []
+    while start < len(calls) and guard < len(calls) + 5:
+        guard += 1
+        prog = "\n".join(f'print "@{i} " . typeof({calls[i]});' for i in range(start, len(calls)))
+        r = R.mlr(["--ijson", "--ojson", "put", "-q", "-f", "prog.mlr"], stdin=inp, files={"prog.mlr": prog}, env=ENV, cpu_s=15, watchdog=60, as_bytes=3 << 30)
+        bump(res, "pool_processes")
+        done = [int(m) for m in re.findall(r"^@(\d+) ", r.out, re.M)]
+        last = max(done) if done else start - 1
+        bump(res, "pool_calls_returned", len(done))
+        if r.verdict == "exited" and r.rc == 0:
+            break
+        k = last + 1
+        if k >= len(calls):
+            break
+        txt = calls[k]
+        detail = {"argv": ["--ijson", "--ojson", "put", "-q", f"print typeof({txt})"], "stdin": inp, "env": ENV, "call": txt}
+        r1 = R.mlr(detail["argv"], stdin=inp, env=ENV, cpu_s=15, watchdog=60, as_bytes=3 << 30)
+        fn = re.match(r"\(?\W*(\w+)", txt)
+        ok = judge(res, r1, {"where": "builtin-pool", "fn": fn.group(1) if fn else "?"}, f"{txt}", detail)
+        if ok and r1.rc == 1:
+            bump(res, "pool_calls_fatal_mlr_error")
+        start = k + 1
+    res["nontrivial_keys"] = [_h("t", c) for c in calls]
+    res["sample"] = {"monitor": "hostile-pool", "first": calls[0], "n": len(calls)}
+    return res
+
+
+# ==========================================================================================
 
 def run(chk):
     only = getattr(chk, "only", None)
@@ -591,7 +744,7 @@ def run(chk):
                 "r: grammar-aware mutants (truncate/delete/duplicate/swap delimiters, splice formats, NUL/0xFF/CR bytes, 1 MiB fields, 100000x bracket repeats, "
                 "boundary numbers) of valid documents of 16 formats under hostile reader options, written as JSON and as the same format; d: token-level mutants "
                 "of ~70 seed programs + ~45 pathological programs (deep nesting, unbounded recursion, hostile arguments); v: verb options with hostile numbers / "
-                "regexes / empty lists. Non-trivial: matrix cells by (function, kind tuple); mutants that differ from the valid document; every DSL/verb case")
+                "regexes / empty lists; o: every main flag from the binary's flag tables with hostile argument values, alone and in random combinations, over valid and mutated documents; t: cross products of hostile time formats x short inputs, hostile regexes x regex functions, percentile arguments x option maps. Non-trivial: matrix cells by (function, kind tuple); mutants that differ from the valid document; every DSL/verb case")
     if not only or "m" in only:
         cases = matrix_cases(chk)
         chk.pmap(matrix_case, cases, label="m builtin x kind matrix")
@@ -618,6 +771,29 @@ def run(chk):
         chk.pmap(dsl_case, cases, chunksize=4, label="d DSL mutants")
     if not only or "v" in only:
         chk.pmap(verb_case, verb_cases(chk), chunksize=4, label="v verb options")
+    if not only or "o" in only:
+        flags = flag_table()
+        chk.extra["main_flags_in_fuzz"] = len(flags)
+        cases = []
+        # every flag that takes an argument x every hostile value once (focus), plus random combinations
+        k = 0
+        for nm, nargs in flags:
+            if nargs:
+                vals = HOSTILE_ARGS if not q else [HOSTILE_ARGS[(k + j * 7) % len(HOSTILE_ARGS)] for j in range(6)] + ["", "abc"]
+                for a in vals:
+                    cases.append({"seed": f"{chk.seed}/of/{nm}/{a}", "flags": flags, "focus": (nm, nargs), "arg": a})
+                k += 1
+        for i in range(600 if q else 30000):
+            cases.append({"seed": f"{chk.seed}/o/{i}", "flags": flags})
+        chk.pmap(option_case, cases, chunksize=8, label="o main-flag fuzz")
+    if not only or "t" in only:
+        calls = hostile_pool_calls()
+        chk.extra["hostile_pool_calls"] = len(calls)
+        if q:
+            rng.shuffle(calls)
+            calls = calls[:7000]
+        chunks = [calls[i:i + 150] for i in range(0, len(calls), 150)]
+        chk.pmap(pool_case, [{"calls": c, "idx": i} for i, c in enumerate(chunks)], label="t hostile time-format / regex / percentile pools")
     chk.assumptions = [
         "shell-outs are disabled (MLR_NO_SHELL=1); system/exec/os-level and random functions are not in the matrix",
         "an address-space limit (3 GiB for matrix calls, 4 GiB otherwise) and 10-30 CPU-seconds per run: exhausting either on a tiny input is reported as kind=resource",
